@@ -29,6 +29,18 @@ theorem tables_agree :
     rotoOptionVariants = defaultOption ∧ rotoResultVariants = defaultResult ∧ verdictVariants = defaultVerdict := by
   decide
 
+/-- **`registry_describes_in_order`.**  What `Value::resolve` stores for the generic Rust types
+    (generated): `Option<T>` is described as `Option(T)`, `Result<T, E>` as `Result(T, E)`,
+    `Verdict<A, R>` as `Verdict(A, R)`, `List<T>` as `List(T)` — constructor and component order —
+    and every arm of the gate pairs component `i` with the Roto type argument `i`; so `RTy` below
+    is the Rust type as written, position by position. -/
+theorem registry_describes_in_order :
+    rustDescriptions = [(.Verdict, .verdict, [0, 1]), (.Result, .result, [0, 1]), (.Option, .option, [0]), (.List, .list, [0])]
+    ∧ gateArms.all (fun a => a.pairs = (List.range a.arity).map fun i => (i, i)) = true
+    ∧ gateArms.all (fun a => a.ident = a.head ∧ a.scope = .global) = true
+    ∧ gateArms.map (·.head) = [.verdict, .result, .option, .list] := by
+  decide
+
 /-- what the gate's answer `true` means, one constructor at a time -/
 theorem gate_option_inv {r : RTy} {t : STy} (h : gate gateArms (.option r) t = true) :
     ∃ d a, t = .name1 .global (.generic .option) d a ∧ gate gateArms r a = true := by
